@@ -48,6 +48,8 @@ def split_reads(w):
     E = [W.read_of("mi%d_gA" % i, "chr1", W.exons(8000, [0, 1]), polya=False) for i in range(6)]
     E += [W.read_of("efsm%d_gB" % i, "chr1", W.exons(1000, [0, 1, 2, 3, 4]), polya=False) for i in range(4)]
     E += [W.read_of("emono%d_gB" % i, "chr2", [[1650, 1780]], polya=False) for i in range(2)]
+    # ... and unspliced tail-less reads in a gene-free stretch (they are reported, whatever the tails of the experiment before)
+    E += [W.read_of("einter%d_gA" % i, "chr2", [[10001 + 10 * i, 10400 + 10 * i]], polya=False) for i in range(3)]
     # G: A's reads with six records written twice (a BAM merged with itself); H: B's reads with one duplicated record.  Exact duplicates
     # are ignored - in every experiment, however many duplicates the process has already seen
     mapped_a = [r for r in A if not r.get("unmapped") and not r.get("secondary")]
